@@ -266,9 +266,9 @@ add("f1_detect_order_reader", "detect", desc="F1 on a reader handle (Box<dyn Rea
 G_ASM = ["libyaml mark contract: event offsets lie inside what was read through the ChunkReader and never before the last trim "
          "(start <= offset <= start + captured.len()); libyaml itself cannot be executed symbolically (a concrete 5-byte parse times out, DESIGN.md section 3)"]
 add("g1_chunkreader_step", "yaml::chunker",
-    desc="ChunkReader::{trim_to_offset,take_to_offset} from an arbitrary buffer state: no panic in try_from/drain/split_off; the chunk is exactly the bytes before the offset, the rest stays, start offset updated",
+    desc="ChunkReader::{trim_to_offset,take_to_offset} from an arbitrary buffer state: no panic in try_from/drain/split_off; take: the chunk is exactly the bytes before the offset, the rest stays; trim (DOCUMENT-START): a suffix containing the offset is kept, the start offset accounts for exactly the dropped bytes, and the spaces right in front of the offset - the indentation of the document's first line - are never dropped",
     bounds="captured <= 5 B (all values), start offset any u64, every offset allowed by the mark contract", functions=["yaml::chunker::ChunkReader::trim_to_offset", "yaml::chunker::ChunkReader::take_to_offset"],
-    covers=["G1 trim in the middle", "G1 take in the middle"], props=["C03", "C04", "C17", "C02"], timeout=300, mem_gb=8, assumptions=G_ASM)
+    covers=["G1 trim in the middle", "G1 take in the middle", "G1 trim in front of an indented token"], props=["C03", "C04", "C17", "C02", "C01"], timeout=300, mem_gb=8, assumptions=G_ASM)
 add("g2_chunkreader_read", "yaml::chunker",
     desc="ChunkReader::read: exactly the bytes the inner reader reports (any short read) are captured and they equal the bytes handed to the parser; an error captures nothing",
     bounds="buffer 0..4, reported length any 0..=size, reader error", functions=["yaml::chunker::ChunkReader::read"],
